@@ -5,7 +5,7 @@
    [e2e_quiescent]: when nothing is left to do, the port has received exactly that stream from every device.
    [e2e_progress]: a reachable state that is not quiescent has an enabled step (no deadlock: the port always reads). *)
 From Coq Require Import List Arith Bool Lia NArith ZArith.
-From HIDI Require Import Base.AList Model.Device Model.Relay Model.EndToEnd Proofs.TransportProofs Proofs.DeviceBasics Proofs.DevicePanic Proofs.DevicePanicSim.
+From HIDI Require Import Base.AList Model.Device Model.Relay Model.EndToEnd Proofs.TransportProofs Proofs.DeviceBasics Proofs.DeviceInv Proofs.DevicePanic Proofs.DevicePanicSim.
 Import ListNotations.
 Close Scope N_scope.
 Open Scope nat_scope.
@@ -291,4 +291,15 @@ Proof.
   - destruct (in_flight _); [reflexivity|discriminate].
   - intros d Hd. rewrite forallb_forall in H2. specialize (H2 d Hd).
     destruct (d_pend d); [|discriminate]. destruct (d_todo d); [|discriminate]. auto.
+Qed.
+
+(* ---- C01 end to end: whatever else is connected, once device k's history has been processed, its input closed and
+   everything delivered, nothing the device started is sounding at the receiver behind the port *)
+Theorem e2e_disconnect ds pc oc s k c h :
+  reachable (estep pc oc) (einit ds) s -> quiescent s -> nth_error ds k = Some (c, h) -> alternating h ->
+  recv [] (at_port s k) = [].
+Proof.
+  intros R Q Hk Ha. rewrite (e2e_quiescent _ _ _ _ R Q k _ _ Hk). unfold device_stream.
+  destruct (Device.run c h) as [sf os] eqn:E.
+  pose proof (disconnect_silences c h Ha) as H. rewrite E in H. exact H.
 Qed.
